@@ -21,6 +21,13 @@ class Ang:
         self.v = v
 
 
+class Mod2pi:
+    """an output equal to the reference modulo 2 pi: symbolically the value *before* the code's `% 2 pi` is compared
+    exactly (and the reduced value is in [0, 2 pi) by construction of the mod encoding); concretely compared as angles"""
+    def __init__(self, v):
+        self.v = v
+
+
 class Holds:
     """an output that is a condition which must hold (symbolically an SB, concretely a bool); the reference side is ignored"""
     def __init__(self, c):
@@ -266,21 +273,38 @@ def _f(x):
 def _components(out, ref):
     assert set(out) == set(ref), (sorted(out), sorted(ref))
     for k in out:
-        a, b = out[k], ref[k]
-        if isinstance(a, Holds):
-            yield k, a, b, False
-            continue
-        is_ang = isinstance(a, Ang) or isinstance(b, Ang)
-        a = a.v if isinstance(a, Ang) else a
-        b = b.v if isinstance(b, Ang) else b
-        if isinstance(a, (np.ndarray, list, tuple)):
-            a = np.asarray(a, dtype=object)
+        yield from _comp1(k, out[k], ref[k])
+
+
+def _comp1(k, a, b):
+    if isinstance(a, Holds):
+        yield k, a, b, False
+        return
+    if isinstance(a, (list, tuple)) or (isinstance(a, np.ndarray) and a.ndim > 0):
+        a = a if isinstance(a, np.ndarray) else list(a)
+        if isinstance(a, np.ndarray):
             b = np.asarray(b, dtype=object)
             assert a.shape == b.shape, (k, a.shape, b.shape)
             for idx in np.ndindex(a.shape):
-                yield f"{k}{list(idx)}", _unw(a[idx]), _unw(b[idx]), is_ang
+                yield from _comp1(f"{k}{list(idx)}", a[idx], b[idx])
         else:
-            yield k, _unw(a), _unw(b), is_ang
+            b = list(b)
+            assert len(a) == len(b), (k, len(a), len(b))
+            for i, (x, y) in enumerate(zip(a, b)):
+                yield from _comp1(f"{k}[{i}]", x, y)
+        return
+    if isinstance(a, Mod2pi):
+        av = a.v
+        bv = b.v if isinstance(b, (Mod2pi, Ang)) else b
+        if isinstance(av, R):
+            yield k, (av.pre if av.pre is not None else av), bv, False
+        else:
+            yield k, av, bv, True
+        return
+    is_ang = isinstance(a, Ang) or isinstance(b, Ang)
+    a = a.v if isinstance(a, Ang) else a
+    b = b.v if isinstance(b, (Ang, Mod2pi)) else b
+    yield k, _unw(a), _unw(b), is_ang
 
 
 def _unw(x):
